@@ -1,2 +1,107 @@
-(* C04 — Data is decoded only with the same exporter's latest template (theorems added as proved). *)
-From VF Require Import Base.Prelude Model.Flow Model.Cache.
+(* C04 — Data is decoded only with the same exporter's latest template.
+   The specification is the map keyed by the full (exporter address, template id): a lookup sees
+   the latest insertion under exactly that key and nothing else (C04_latest, C04_frame).  The
+   decoders run against the real sharded, hash-indexed cache are indistinguishable from the same
+   decoders run against that map, on every history (C04_*_refines); and an exporter's outputs do
+   not depend on any other exporter's datagrams (C04_*_isolation). *)
+From VF Require Import Base.Prelude Model.Reader Model.Layout Model.JsonPieces Model.Flow Model.Cache
+  Model.Ipfix Model.Nf9 Model.History Proofs.CacheProofs Proofs.FlowRel Proofs.IpfixHistory Proofs.Nf9History.
+
+Theorem C04_latest : forall a id t m, amap_get a id (((a, id), t) :: m) = Some t.
+Proof. exact amap_latest. Qed.
+Print Assumptions C04_latest.
+
+Theorem C04_frame : forall a id a' id' t m, (a, id) <> (a', id') ->
+  amap_get a id (((a', id'), t) :: m) = amap_get a id m.
+Proof. exact amap_frame. Qed.
+Print Assumptions C04_frame.
+
+(* the concrete cache: insertion then lookup, any two keys *)
+Theorem C04_cache_refines_map : forall c m id a t, refines c m ->
+  exists c', cc_insert c id a t = Ok c' /\ refines c' (((a, id mod 65536), t) :: m).
+Proof. exact refines_insert. Qed.
+Print Assumptions C04_cache_refines_map.
+
+Theorem C04_ipfix_refines : forall im hl h,
+  match run_history (ipfix_decode cc_ops im hl) empty_ccache h, run_history (ipfix_decode am_ops im hl) [] h with
+  | Ok (_, ds), Ok (_, ds') => ds = ds'
+  | _, _ => False
+  end.
+Proof.
+  intros im hl h. pose proof (IpfixHistory.history_refines im hl h empty_ccache [] refines_empty) as H.
+  destruct (run_history (ipfix_decode cc_ops im hl) empty_ccache h) as [[c ds]| | |],
+           (run_history (ipfix_decode am_ops im hl) [] h) as [[m ds']| | |]; try contradiction. apply H.
+Qed.
+Print Assumptions C04_ipfix_refines.
+
+Theorem C04_nf9_refines : forall im hl h,
+  match run_history (nf9_decode cc_ops im hl) empty_ccache h, run_history (nf9_decode am_ops im hl) [] h with
+  | Ok (_, ds), Ok (_, ds') => ds = ds'
+  | _, _ => False
+  end.
+Proof.
+  intros im hl h. pose proof (Nf9History.history_refines im hl h empty_ccache [] refines_empty) as H.
+  destruct (run_history (nf9_decode cc_ops im hl) empty_ccache h) as [[c ds]| | |],
+           (run_history (nf9_decode am_ops im hl) [] h) as [[m ds']| | |]; try contradiction. apply H.
+Qed.
+Print Assumptions C04_nf9_refines.
+
+(* exporter a's outputs within any history = its outputs when its datagrams are decoded alone *)
+Theorem C04_ipfix_isolation : forall im hl a h,
+  match run_history (ipfix_decode am_ops im hl) [] h, run_history (ipfix_decode am_ops im hl) [] (IpfixHistory.only a h) with
+  | Ok (_, ds), Ok (_, ds') => IpfixHistory.outs_for a h ds = ds'
+  | _, _ => False
+  end.
+Proof.
+  intros im hl a h. pose proof (IpfixHistory.exporter_isolation im hl a h [] [] (fun _ => eq_refl)) as H.
+  destruct (run_history (ipfix_decode am_ops im hl) [] h) as [[c ds]| | |],
+           (run_history (ipfix_decode am_ops im hl) [] (IpfixHistory.only a h)) as [[m ds']| | |]; try contradiction. apply H.
+Qed.
+Print Assumptions C04_ipfix_isolation.
+
+Theorem C04_nf9_isolation : forall im hl a h,
+  match run_history (nf9_decode am_ops im hl) [] h, run_history (nf9_decode am_ops im hl) [] (Nf9History.only a h) with
+  | Ok (_, ds), Ok (_, ds') => Nf9History.outs_for a h ds = ds'
+  | _, _ => False
+  end.
+Proof.
+  intros im hl a h. pose proof (Nf9History.exporter_isolation im hl a h [] [] (fun _ => eq_refl)) as H.
+  destruct (run_history (nf9_decode am_ops im hl) [] h) as [[c ds]| | |],
+           (run_history (nf9_decode am_ops im hl) [] (Nf9History.only a h)) as [[m ds']| | |]; try contradiction. apply H.
+Qed.
+Print Assumptions C04_nf9_isolation.
+
+(* data whose template this exporter has not announced yields no records and is reported *)
+Theorem C04_ipfix_unknown_template : forall im a m r ds sid L r1,
+  uint16 r = Ok (sid, r1) -> (exists r2, uint16 r1 = Ok (L, r2)) -> 255 < sid ->
+  amap_get a (sid mod 65536) m = None ->
+  match Ipfix.decode_set am_ops im a m r ds with
+  | Ok (m', Ipfix.SCont _ ds' nf) => m' = m /\ ds' = ds /\ nf = true
+  | Ok (m', Ipfix.SFatal) => m' = m
+  | _ => False
+  end.
+Proof. exact IpfixHistory.unknown_template_no_records. Qed.
+Print Assumptions C04_ipfix_unknown_template.
+
+Theorem C04_nf9_unknown_template : forall im a m r ds sid L r1,
+  uint16 r = Ok (sid, r1) -> (exists r2, uint16 r1 = Ok (L, r2)) -> 255 < sid ->
+  amap_get a (sid mod 65536) m = None ->
+  match Nf9.decode_set9 am_ops im a m r ds with
+  | Ok (m', Nf9.SCont _ ds' nf) => m' = m /\ ds' = ds /\ nf = true
+  | Ok (m', Nf9.SFatal) => m' = m
+  | _ => False
+  end.
+Proof. exact Nf9History.unknown_template_no_records. Qed.
+Print Assumptions C04_nf9_unknown_template.
+
+(* non-vacuity: the concrete cache really distinguishes two exporters and really returns the latest template *)
+Example C04_instance :
+  let t1 := {| t_id := 256; t_fcount := 1; t_fields := [{| f_id := 8; f_len := 4; f_pen := 0 |}]; t_scount := 0; t_scope := [] |} in
+  let t2 := {| t_id := 256; t_fcount := 1; t_fields := [{| f_id := 12; f_len := 4; f_pen := 0 |}]; t_scount := 0; t_scope := [] |} in
+  match cc_insert empty_ccache 256 [10; 0; 0; 1] t1 with
+  | Ok c1 => match cc_insert c1 256 [10; 0; 0; 2] t2 with
+             | Ok c2 => cc_retrieve c2 256 [10; 0; 0; 1] = Ok (Some t1) /\ cc_retrieve c2 256 [10; 0; 0; 2] = Ok (Some t2)
+                        /\ cc_retrieve c2 257 [10; 0; 0; 1] = Ok None
+             | _ => False end
+  | _ => False end.
+Proof. vm_compute. repeat split. Qed.
